@@ -1,12 +1,5 @@
 #![allow(dead_code)]
 use educe::Educe;
-#[derive(Educe)]
-#[educe(Debug, Clone, PartialEq, Eq, PartialOrd, Ord, Hash)]
-enum E { A { _0: u8, _f: u8, __f: u8, _s_x: u8, x_: u8 } }
-#[derive(Educe)]
-#[educe(Debug, Clone, PartialEq, PartialOrd, Hash, Default, Deref, DerefMut, Into(u8))]
-enum F { A { #[educe(Deref, DerefMut, Into(u8))] _0: u8, _f: u16 } }
-#[derive(Educe)]
-#[educe(Debug, Clone, PartialEq, Eq, PartialOrd, Ord, Hash, Default, Deref, DerefMut, Into(u8))]
-struct S { #[educe(Deref, DerefMut, Into(u8))] _0: u8, _f: u16, __f: u32 }
-fn main() { }
+pub trait Bnd {} pub trait Usr {} impl Bnd for u8 {} impl Usr for u8 {}
+#[derive(Educe)] #[educe(Copy, Clone(bound(*)))] struct T1061<'a, const N: usize, T: Bnd = u8>(T, ::core::marker::PhantomData<&'a [T; N]>) where T: Usr;
+fn main() {}
